@@ -562,33 +562,19 @@ func (m *Machine) formatInt(t *Term, signed bool, width int) *Term {
 	if m.Domain == DomAlgebra {
 		return m.ctor(fmt.Sprintf("itoa%d", width), t)
 	}
-	// non-negative case exact via str.from_int; negative values get a leading '-'.
-	var n *Term
+	// String domain: decimal formatting is an uninterpreted function of the (sign- or
+	// zero-extended) 64-bit value, one function per (width, signedness). Two formatters
+	// given equal numbers produce equal strings; nothing else about digits is assumed
+	// (harnesses that need exact digits use verifrt.Dec / ToInt).
+	v := BVResize(t, 64, signed)
+	name := fmt.Sprintf("uf.fmtint.w%d", width)
 	if signed {
-		n = App("sbv2int", SInt, BVResize(t, 64, true))
-		m.W.noteStub("sbv2int (defined: signed value of a 64-bit vector)")
-	} else {
-		n = mk("bv2nat", SInt, t)
+		name += ".s"
 	}
-	digits := mk("str.from_int", SString, n)
-	res := digits
-	if width > 0 {
-		// pad: for each shorter length prepend zeros
-		ln := mk("str.len", SInt, digits)
-		for k := width - 1; k >= 1; k-- {
-			res = Ite(mk("=", SBool, ln, IntC(int64(k))), mk("str.++", SString, StrC(strings.Repeat("0", width-k)), digits), res)
-		}
-	}
-	if signed {
-		neg := mk("<", SBool, n, IntC(0))
-		negDigits := mk("str.++", SString, StrC("-"), mk("str.from_int", SString, mk("-", SInt, IntC(0), n)))
-		if width > 0 {
-			// negative padded numbers are outside what the encoded code produces; keep exact for width 0 only
-			return Ite(neg, m.opaqueString("fmt.negpad"), res)
-		}
-		return Ite(neg, negDigits, res)
-	}
-	return res
+	m.W.noteStub("fmt %d formatting as uninterpreted function " + name)
+	r := App(name, SString, v)
+	m.markCharFree(r, "\n\r/")
+	return r
 }
 
 // sqlKind recognises the statement shapes of the database contract model.
